@@ -37,6 +37,9 @@ const (
 	// ^twitter([./].*)?$
 	RegexToReplaceHostWildcard string = "([./].*)?"
 
+	// Regex standing for the method of a filter that accepts every method
+	RegexToMatchAnyMethod string = ".*"
+
 	// Example of regex for a URL with both path parameters and wildcard:
 	// ^twitter\.com\/user/[^/]+/post/[^/]+/by(/.*)?$
 	// See unit tests for matching/non-matching URL examples:
@@ -151,10 +154,27 @@ func HaproxyEndpointFormat(
 	method, url string,
 	requirements *stream_types.ProcessorRequirement,
 ) *HAProxyEndpointData {
+	return formatEndpoint(regexp.QuoteMeta(method), url, requirements)
+}
+
+// HaproxyAnyMethodEndpointFormat is HaproxyEndpointFormat for a filter that
+// lists no methods: the engine accepts every method for it, so the
+// expression does too.
+func HaproxyAnyMethodEndpointFormat(
+	url string,
+	requirements *stream_types.ProcessorRequirement,
+) *HAProxyEndpointData {
+	return formatEndpoint(RegexToMatchAnyMethod, url, requirements)
+}
+
+func formatEndpoint(
+	methodRegex, url string,
+	requirements *stream_types.ProcessorRequirement,
+) *HAProxyEndpointData {
 	log.Trace().Msgf("Original URL: %v", url)
 	formattedURL, hasWildcard := formatURLParts(urltree.SplitURL(url))
 	log.Trace().Msgf("Formatted URL: %v", formattedURL)
-	result := strings.Join([]string{regexp.QuoteMeta(method), formattedURL}, delimiter)
+	result := strings.Join([]string{methodRegex, formattedURL}, delimiter)
 	if !hasWildcard {
 		result += "$"
 	}
